@@ -84,13 +84,15 @@ def stdSel (op : String) (opts : Val) (docs : List Val) : R (List Nat) :=
           .ok (((keys.zipIdx).foldl (fun acc ki => insertBy (dir < 0) (ki.1.getD 0) ki.2 acc) []).map (·.2))
     | _ => .error .unmodelled
   else if op == "$skip" then
+    -- `_handle_skip_stage`: a non-negative integer (not a bool), OperationFailure otherwise
     match opts with
-    | .int n => if n < 0 then .error .unmodelled else .ok ((List.range docs.length).drop n.toNat)
-    | _ => .error .unmodelled
+    | .int n => if n < 0 then .error .opFail else .ok ((List.range docs.length).drop n.toNat)
+    | _ => .error .opFail
   else if op == "$limit" then
+    -- `_handle_limit_stage`: a positive integer (not a bool), OperationFailure otherwise
     match opts with
-    | .int n => if n < 0 then .error .unmodelled else .ok ((List.range docs.length).take n.toNat)
-    | _ => .error .unmodelled
+    | .int n => if n ≤ 0 then .error .opFail else .ok ((List.range docs.length).take n.toNat)
+    | _ => .error .opFail
   else .error .unmodelled
 
 def stdJoins (loc frn : String) (doc : Val) (foreign : List Val) : R (List Nat) :=
